@@ -137,7 +137,19 @@ impl QuinnConnection {
     #[verifier::external_body]
     pub fn peer_identity(&self) -> (r: Option<AnyBox>) ensures r is Some, r->Some_0.chain == self.chain { unimplemented!() }
 }
-pub mod quinn { pub use super::QuinnConnection as Connection; }
+// quinn::SendStream: finished (all data handed over, FIN sent), reset (abandoned with an error code), or still open
+pub struct QuinnSendStream { pub finished: bool, pub reset_code: Option<u64> }
+pub struct VarInt { pub v: u64 }
+impl From<u8> for VarInt { #[verifier::external_body] fn from(x: u8) -> (r: VarInt) ensures r.v == x as u64 { unimplemented!() } }
+pub struct ClosedStream;
+impl QuinnSendStream {
+    // reset abandons the stream unless it is already closed (finished or reset), in which case it reports ClosedStream and changes nothing
+    #[verifier::external_body]
+    pub fn reset(&mut self, code: VarInt) -> (r: core::result::Result<(), ClosedStream>)
+        ensures (old(self).finished || old(self).reset_code is Some) ==> r is Err && *final(self) == *old(self),
+                !(old(self).finished || old(self).reset_code is Some) ==> r is Ok && final(self).reset_code == Some(code.v) && final(self).finished == old(self).finished { unimplemented!() }
+}
+pub mod quinn { pub use super::QuinnConnection as Connection; pub use super::QuinnSendStream as SendStream; }
 '''
 
 SPEC = r'''
@@ -252,6 +264,16 @@ impl Connection {
         inner.chain.len() >= 1,
     ensures
         r is Ok ==> r->Ok_0.peer_id == cert_id(inner.chain[0])->Ok_0 && r->Ok_0.origin == origin && r->Ok_0.inner == inner, // @OBL Connection::new::identity_from_handshake [C01] a connection is only reported as established with the identity of the certificate authenticated in ITS OWN handshake
+''')
+    t += '}\n'
+    # ---- the send half of a stream is reset when it is dropped without having been finished (connection.rs) -------------
+    t += C.item(CONN, 'struct SendStream', derives=False)
+    t += 'impl SendStream {\n'
+    t += C.fn(CONN, 'impl Drop for SendStream :: fn drop', 'SendStream::drop', ['C02'], pub=True,
+              sig_rewrites=[('fn drop(', 'fn drop_impl(')], spec='''
+    ensures
+        !old(self).0.finished ==> final(self).0.reset_code is Some, // @OBL SendStream::drop::unfinished_stream_is_reset [C02] a send half that is dropped before it was finished is RESET, never silently closed: a response or request cut short by an error can not be mistaken by the other side for a complete one
+        old(self).0.finished ==> *final(self) == *old(self), // @OBL SendStream::drop::finished_stream_untouched [C02] a finished stream is left as it is
 ''')
     t += '}\n'
     t += C.helpers_here()
